@@ -1345,3 +1345,41 @@ def _str_char_pattern(ctx, s, c):
     if 'ends_with' in ctx.callee:
         return a.endswith(ch)
     return ch in a
+
+
+# ------------------------------------------------------------------ std::mem
+
+@model(r'^std::mem::replace::<.*>$')
+def _mem_replace(ctx, p, v):
+    old = ctx.deref(p)
+    ctx.write(p, v)
+    return old
+
+
+@model(r'^std::mem::take::<(.*)>$')
+def _mem_take(ctx, p):
+    old = ctx.deref(p)
+    t = re.match(r'^std::mem::take::<(.*)>$', ctx.callee).group(1)
+    if t.startswith('std::option::Option<'):
+        d = NONE
+    elif t.startswith('std::vec::Vec<'):
+        d = Seq(())
+    elif t == 'std::string::String':
+        d = StrV('')
+    elif t in X.INT_TYPES:
+        d = CI(0, X.INT_TYPES[t][0])
+    elif t == 'bool':
+        d = False
+    else:
+        r = ctx.ex.call('<%s as std::default::Default>::default' % t, [], [], t, ctx.st, ctx.where)
+        d, ctx.st = r
+    ctx.write(p, d)
+    return old
+
+
+@model(r'^std::mem::swap::<.*>$')
+def _mem_swap(ctx, p, q):
+    a, b = ctx.deref(p), ctx.deref(q)
+    ctx.write(p, b)
+    ctx.write(q, a)
+    return UNIT
